@@ -415,7 +415,6 @@ func stripConv(v ssa.Value) ssa.Value {
 	return v
 }
 
-
 // freeVarBinding: for a (load of a) free variable of closure fn, the value bound in the parent (through single-store cells).
 func freeVarBinding(fn *ssa.Function, v ssa.Value) ssa.Value {
 	if u, ok := v.(*ssa.UnOp); ok {
